@@ -263,7 +263,7 @@ fn expected_lines(entries: &[&CovResult]) -> BTreeMap<u32, u64> {
 }
 
 /// all oracles of one case on the implementation's own output
-fn oracles(rep: &mut Report, t: &Tree, case: &C12Case, r: &Result<Recs, String>, tag: &str) -> Vec<(String, Option<&'static str>)> {
+fn oracles(rep: &mut Report, t: &Tree, case: &C12Case, r: &Result<Recs, String>, tag: &str, counting: bool) -> Vec<(String, Option<&'static str>)> {
     let mut fails: Vec<(String, Option<&'static str>)> = vec![];
     let recs = match r {
         Ok(x) => x,
@@ -271,13 +271,11 @@ fn oracles(rep: &mut Report, t: &Tree, case: &C12Case, r: &Result<Recs, String>,
     };
     let dups = duplicates(recs, &t.cw);
     let g = guard(case, t);
-    if let Some(g) = g {
-        rep.count(&format!("guard.{}", g));
-    } else {
-        rep.count("guard.none");
+    if counting {
+        rep.count(&format!("guard.{}", g.unwrap_or("none")));
+        rep.count_n("out.duplicate_path", dups.len() as u64);
     }
     for (rel, same_abs) in &dups {
-        rep.count("out.duplicate_path");
         if g.is_some() {
             fails.push((format!("C12_unique_partial fails: {:?} reported more than once although the guard holds", rel), None));
         } else if *same_abs {
@@ -324,8 +322,10 @@ fn oracles(rep: &mut Report, t: &Tree, case: &C12Case, r: &Result<Recs, String>,
                 if dups.is_empty() && listed != total {
                     fails.push(("covdir: no duplicate path, yet the listed files do not add up to the root total".into(), None));
                 }
+                if counting {
+                    rep.count_n("out.covdir_total_mismatch", bad.len() as u64);
+                }
                 for b in bad {
-                    rep.count("out.covdir_total_mismatch");
                     fails.push((format!("covdir counts a file more than once: {}", b),
                         if !dups.is_empty() && dups.iter().all(|d| d.1) && g.is_none() { Some(FINDING) } else { None }));
                 }
@@ -336,13 +336,73 @@ fn oracles(rep: &mut Report, t: &Tree, case: &C12Case, r: &Result<Recs, String>,
     fails
 }
 
+/// greedy shrinking of an oracle failure: drop inputs and options while the first failure keeps
+/// its finding name (or stays unnamed)
+fn shrink(rep: &mut Report, t: &Tree, case: &C12Case, finding: Option<&'static str>) -> (C12Case, Option<String>) {
+    let (c, w) = shrink_inner(rep, t, case, finding);
+    let r = run_impl_c12(&c);
+    let fails = oracles(rep, t, &c, &r, "shrink", false);
+    let what = fails.iter().find(|f| f.1.is_none()).or(fails.first()).map(|f| f.0.clone());
+    (c, what.or(w))
+}
+
+fn shrink_inner(rep: &mut Report, t: &Tree, case: &C12Case, finding: Option<&'static str>) -> (C12Case, Option<String>) {
+    let mut cur = C12Case { cfg: case.cfg.clone(), batches: vec![case.flat()] };
+    let still = |rep: &mut Report, c: &C12Case| {
+        let r = run_impl_c12(c);
+        let fails = oracles(rep, t, c, &r, "shrink", false);
+        let first = fails.iter().find(|f| f.1.is_none()).or(fails.first());
+        matches!(first, Some(f) if f.1 == finding)
+    };
+    if !still(rep, &cur) {
+        return (C12Case { cfg: case.cfg.clone(), batches: case.batches.clone() }, None);
+    }
+    let mut progress = true;
+    while progress {
+        progress = false;
+        let mut cands: Vec<C12Case> = vec![];
+        for i in 0..cur.batches[0].len() {
+            if cur.batches[0].len() > 1 {
+                let mut b = cur.batches[0].clone();
+                b.remove(i);
+                cands.push(C12Case { cfg: cur.cfg.clone(), batches: vec![b] });
+            }
+        }
+        if cur.cfg.mapping.is_some() {
+            let mut c = cur.cfg.clone();
+            c.mapping = None;
+            cands.push(C12Case { cfg: c, batches: cur.batches.clone() });
+        }
+        if cur.cfg.pd.is_some() {
+            let mut c = cur.cfg.clone();
+            c.pd = None;
+            cands.push(C12Case { cfg: c, batches: cur.batches.clone() });
+        }
+        for c in cands {
+            if still(rep, &c) {
+                cur = c;
+                progress = true;
+                break;
+            }
+        }
+    }
+    (cur, None)
+}
+
 fn report_case(rep: &mut Report, t: &Tree, case: &C12Case, r: &Result<Recs, String>, model: &str, tag: &str) {
     let out = show_recs(r);
-    let fails = oracles(rep, t, case, r, tag);
+    let fails = oracles(rep, t, case, r, tag, true);
+    let may_shrink = tag != "witness";
     let unnamed: Vec<&(String, Option<&'static str>)> = fails.iter().filter(|f| f.1.is_none()).collect();
     let mut cj = case.to_json(t);
     if let Some(f) = unnamed.first() {
-        rep.fail("oracle", None, f.0.clone(), cj);
+        let mut what = f.0.clone();
+        if may_shrink && rep.failures.iter().filter(|x| x.finding.is_none()).count() < 8 {
+            let (c, w) = shrink(rep, t, case, None);
+            cj = c.to_json(t);
+            what = w.unwrap_or(what);
+        }
+        rep.fail("oracle", None, what, cj);
         return;
     }
     if out != model {
@@ -354,7 +414,13 @@ fn report_case(rep: &mut Report, t: &Tree, case: &C12Case, r: &Result<Recs, Stri
         return;
     }
     if let Some(f) = fails.first() {
-        rep.fail("oracle", f.1, f.0.clone(), cj);
+        let mut what = f.0.clone();
+        if may_shrink && rep.failures.iter().filter(|x| x.finding.as_deref() == f.1).count() < 8 {
+            let (c, w) = shrink(rep, t, case, f.1);
+            cj = c.to_json(t);
+            what = w.unwrap_or(what);
+        }
+        rep.fail("oracle", f.1, what, cj);
     }
 }
 
